@@ -22,6 +22,9 @@ pub struct Case {
     pub real: bool,
     /// (first step, number of steps, lock: 0 keyboard, 1 display, 2 both)
     pub holds: Vec<(usize, usize, u8)>,
+    /// holds placed relative to the program's own polling: (polled status register: 0 KBSR, 1 DSR; k-th poll of it (from 1);
+    /// steps after that poll; number of steps; lock: 0 keyboard, 1 display, 2 both)
+    pub trig: Vec<(u8, usize, usize, usize, u8)>,
 }
 
 fn program(c: &Case) -> Vec<u16> {
@@ -121,10 +124,22 @@ fn run_case(c: &Case, exclude_known: bool, st: &mut Stats) -> Result<Option<(Vec
     let mut held_at_last_poll = [false, false];
     let mut since_poll = [usize::MAX, usize::MAX];
     const WINDOW: usize = 4;
+    let mut polls = [0usize, 0usize];
+    let mut dyn_holds: Vec<(usize, usize, u8)> = vec![];
     for step in 0..60_000usize {
         let mut lock_k = false;
         let mut lock_d = false;
-        for (s, n, which) in &c.holds {
+        if !c.trig.is_empty() {
+            if let Some(d) = at_status_poll(&rig) {
+                polls[d] += 1;
+                for (dev, k, delay, n, which) in &c.trig {
+                    if *dev as usize == d && *k == polls[d] {
+                        dyn_holds.push((step + delay, *n, *which));
+                    }
+                }
+            }
+        }
+        for (s, n, which) in c.holds.iter().chain(dyn_holds.iter()) {
             if step >= *s && step < s + n {
                 lock_k |= *which == 0 || *which == 2;
                 lock_d |= *which == 1 || *which == 2;
@@ -192,10 +207,10 @@ fn judge(c: &Case, r: Option<(Vec<u8>, Vec<u8>, bool)>, st: &mut Stats) -> Resul
     };
     let want = expected_output(c);
     if out != want {
-        return Err(format!("with lock holds {:?} the display received {out:?}; every byte must appear exactly once and in order: {want:?}", c.holds));
+        return Err(format!("with lock holds {:?} (poll-relative: {:?}) the display received {out:?}; every byte must appear exactly once and in order: {want:?}", c.holds, c.trig));
     }
     if !left.is_empty() {
-        return Err(format!("with lock holds {:?} the program finished but {left:?} is still queued (a byte was not delivered)", c.holds));
+        return Err(format!("with lock holds {:?} (poll-relative: {:?}) the program finished but {left:?} is still queued (a byte was not delivered)", c.holds, c.trig));
     }
     Ok(overlapped)
 }
@@ -207,7 +222,19 @@ pub fn decode(tape: &[u32]) -> Case {
     let input: Vec<u8> = (0..n).map(|_| 1 + t.pick(255) as u8).collect();
     let nh = 1 + t.pick(6);
     let holds = (0..nh).map(|_| (t.pick(40 * n), 1 + t.weighted(&[6, 3, 2, 1, 1]), t.pick(3) as u8)).collect();
-    Case { input, kind, real: t.chance(1, 3), holds }
+    let real = t.chance(1, 3);
+    // (read last: older tapes decode to the same absolute holds) 0-3 holds placed relative to the k-th poll of KBSR/DSR,
+    // so that staggered keyboard/display patterns around the polling loops are reached however long the program
+    // has been running (IN prints a 17-byte prompt before it looks at the keyboard)
+    let nt = t.pick(4);
+    let trig = (0..nt)
+        .map(|_| {
+            let dev = t.pick(2) as u8;
+            let kmax = if t.chance(1, 2) { 4 } else { 24 * n };
+            (dev, 1 + t.pick(kmax), t.pick(5), 1 + t.weighted(&[5, 3, 2, 2, 1, 1, 1]), t.pick(3) as u8)
+        })
+        .collect();
+    Case { input, kind, real, holds, trig }
 }
 
 pub fn check(tape: &[u32], st: &mut Stats) -> Result<(), String> {
@@ -216,6 +243,12 @@ pub fn check(tape: &[u32], st: &mut Stats) -> Result<(), String> {
     let r = run_case(&c, excl, st)?;
     let overlapped = judge(&c, r, st)?;
     st.class(&format!("kind:{}", ["echo", "in", "puts"][c.kind as usize]));
+    if !c.trig.is_empty() {
+        st.class("poll-relative-holds");
+        if c.trig.iter().any(|t| t.4 != 1) && c.trig.iter().any(|t| t.4 != 0) && c.trig.len() >= 2 {
+            st.class(&format!("poll-relative-holds-on-both-devices:{}", ["echo", "in", "puts"][c.kind as usize]));
+        }
+    }
     if overlapped {
         st.nontrivial(&format!("{c:?}"));
         st.class("hold-overlaps-io-access");
@@ -233,7 +266,7 @@ pub fn describe(tape: &[u32]) -> Value {
 pub fn run(ctx: &Ctx) -> Outcome {
     let mut out = Outcome::new(
         "echo programs (GETC/OUT loop, IN loop, PUTS) on the real OS under lock schedules owned by the harness (the checking thread holds a guard on the keyboard and/or display buffer during chosen steps, which makes the devices' try_write fail deterministically); \
-         exhaustive: every single-step hold and every pair of single-step holds x {keyboard, display, both} over the steps of 1-3 byte echo programs (quick: pairs for 1-2 bytes); random: 1-6 holds of 1-5 steps on 1-12 byte inputs; \
+         exhaustive: every single-step hold and every pair of single-step holds x {keyboard, display, both} over the steps of 1-3 byte echo programs (quick: pairs for 1-2 bytes); random: 1-6 holds of 1-5 steps at absolute steps plus 0-3 holds of 1-7 steps placed 0-4 steps after the k-th poll of KBSR or DSR (staggered keyboard/display patterns around the polling loops, also late in long programs) on 1-12 byte inputs; \
          oracle: display == the bytes in order exactly once (plus the IN prompt), keyboard queue empty at the end; an evaluation is one schedule; non-trivial = a hold overlaps an LDI/STI step of the OS polling code; distinct by schedule; \
          holds that cover the KBDR read / DDR write itself are excluded while the known finding is listed",
     );
@@ -243,7 +276,7 @@ pub fn run(ctx: &Ctx) -> Outcome {
     let mut jobs: Vec<Case> = vec![];
     for nbytes in 1..=max_in {
         let input: Vec<u8> = (0..nbytes).map(|i| b'a' + i as u8).collect();
-        let base = Case { input: input.clone(), kind: 0, real: false, holds: vec![] };
+        let base = Case { input: input.clone(), kind: 0, real: false, holds: vec![], trig: vec![] };
         // number of steps of the undisturbed run
         let mut tmp = Stats::default();
         let steps = {
@@ -284,7 +317,7 @@ pub fn run(ctx: &Ctx) -> Outcome {
                 st.class("exhaustive-schedule");
                 Ok(())
             }
-            Err(m) => Err(Failure { case: json!({"input": c.input, "kind": c.kind, "real": c.real, "holds": c.holds}), message: m, description: json!(format!("{c:?}")) }),
+            Err(m) => Err(Failure { case: json!({"input": c.input, "kind": c.kind, "real": c.real, "holds": c.holds, "trig": c.trig}), message: m, description: json!(format!("{c:?}")) }),
         }
     }));
     if !out.failed() {
@@ -293,7 +326,7 @@ pub fn run(ctx: &Ctx) -> Outcome {
         out.absorb(tape_search(ctx, "random", &cfg, check, describe));
     }
     out.exhaustive = false;
-    out.essential = ["exhaustive-schedule", "hold-overlaps-io-access", "kind:echo", "kind:in", "kind:puts"].iter().map(|s| s.to_string()).collect();
+    out.essential = ["exhaustive-schedule", "hold-overlaps-io-access", "kind:echo", "kind:in", "kind:puts", "poll-relative-holds", "poll-relative-holds-on-both-devices:in", "poll-relative-holds-on-both-devices:echo"].iter().map(|s| s.to_string()).collect();
     out.assumptions.push("real OS-thread interleavings inside a single try_write are not explored; a try_* call can only succeed or fail, which is exactly what the schedule controls".into());
     if excl {
         out.assumptions.push("known finding C33/hold-on-data-access-after-ready-poll: holds covering the KBDR read / DDR write step are removed from every schedule (counted in excluded_known)".into());
@@ -308,6 +341,7 @@ pub fn replay(_ctx: &Ctx, case: &Value, st: &mut Stats) -> Result<(), String> {
             kind: case["kind"].as_u64().unwrap_or(0) as u8,
             real: case["real"].as_bool().unwrap_or(false),
             holds: serde_json::from_value(case["holds"].clone()).map_err(|e| e.to_string())?,
+            trig: case.get("trig").map(|v| serde_json::from_value(v.clone())).transpose().map_err(|e| e.to_string())?.unwrap_or_default(),
         };
         // a stored case is replayed as is (known-finding witnesses must show the defect)
         let r = run_case(&c, false, st)?;
